@@ -3,6 +3,7 @@ import random
 import re
 
 from . import core
+from .. import tlc
 from ..common import Check, load_known_findings
 from ..harness import driver
 
@@ -10,26 +11,42 @@ INVS = ['TypeOK', 'C15_NoStuckJoin', 'C05_EventShape']
 
 
 def stuck_join_handler(ck, job, r):
-    """C15_NoStuckJoin counterexample: known finding F6 iff the stuck joiner is an application
-    disconnect() (kind "api") of a session that is on polling; a stuck request is a violation."""
-    last = r.trace[-1] if r.trace else ''
-    m = re.search(r'/\\ joiners = (<<.*?>>)\n/\\', last + '\n/\\', re.S)
-    kinds = re.findall(r'kind \|-> "(\w+)"', m.group(1)) if m else []
+    """C15_NoStuckJoin counterexample.  Known finding F6 iff every stuck joiner is an application
+    disconnect(sid) / disconnect() (kinds "api", "all", "allc") waiting for a session that is on
+    polling; F6b iff it is one of those on an upgraded session in the threaded model; a stuck
+    request, or anything else, is a violation."""
+    st = tlc.parse_state(r.trace[-1]) if r.trace else {}
+    joiners = st.get('joiners') or []
+    g = st.get('g') or {}
+    if not joiners or not g:
+        return False
     opn, _ = load_known_findings('C15')
-    f6 = [e for e in opn if e['id'] == 'F6']
-    f6b = [e for e in opn if e['id'] == 'F6b']
+    listed = {e['id']: e for e in opn}
     sync_model = job['consts'].get('ImplJoinLatch') != 'TRUE'
-    if kinds and all(k == 'api' for k in kinds) and f6b and 'upged |-> TRUE' in last and sync_model:
-        ck.known_finding('F6b', f6b[0]['what'])
-        ck.cov.setdefault('known_finding_counterexamples', []).append(
-            {'model': job['name'], 'joiners': m.group(1), 'length': len(r.trace)})
-        return True
-    if kinds and all(k == 'api' for k in kinds) and f6 and 'upged |-> TRUE' not in last:
-        ck.known_finding('F6', f6[0]['what'])
-        ck.cov.setdefault('known_finding_counterexamples', []).append(
-            {'model': job['name'], 'joiners': m.group(1), 'length': len(r.trace)})
-        return True
-    return False
+    # the joiners that can never return (the invariant is about quiescent states: no poll is
+    # pending for them and no writer runs)
+    polls = {p['s'] for p in st.get('polls') or []}
+    fids = set()
+    for j in joiners:
+        if j['s'] in polls or tlc.fn_get(st.get('wsw'), j['s']) in ('new', 'run'):
+            continue
+        if j['kind'] not in ('api', 'all', 'allc'):
+            return False
+        upged = tlc.fn_get(g['ss'], j['s'])['upged']
+        if not upged and 'F6' in listed:
+            fids.add('F6')
+        elif upged and sync_model and 'F6b' in listed:
+            fids.add('F6b')
+        else:
+            return False
+    if not fids:
+        return False
+    for fid in sorted(fids):
+        ck.known_finding(fid, listed[fid]['what'])
+    ck.cov.setdefault('known_finding_counterexamples', []).append(
+        {'model': job['name'], 'joiners': joiners, 'length': len(r.trace),
+         'findings': sorted(fids)})
+    return True
 
 
 def run(tier):
@@ -61,6 +78,25 @@ def run(tier):
                                 ImplJoinLatch='TRUE', ImplWsReadTimeout='TRUE',
                                 MaxMsg=1, MaxReq=3, MaxQ=4, MaxEv=2),
              invariants=INVS, min_states=100),
+        dict(name='application disconnect() of all clients, threaded: sequential closes (known '
+                  'finding F6 expected on polling sessions)',
+             consts=core.consts(Sid='{1, 2}', Alpha=A('open', 'openws', 'poll', 'apiall', 'send'),
+                                MaxMsg=1, MaxReq=5, MaxQ=4, MaxEv=3),
+             invariants=INVS, on_violation=stuck_join_handler, min_states=20),
+        dict(name='application disconnect() of all clients, asyncio: concurrent closes (known '
+                  'finding F6 expected on polling sessions)',
+             consts=core.consts(Sid='{1, 2}', Alpha=A('open', 'openws', 'poll', 'apiall', 'send'),
+                                ImplJoinLatch='TRUE', ImplWsReadTimeout='TRUE',
+                                MaxMsg=1, MaxReq=5, MaxQ=4, MaxEv=3),
+             invariants=INVS, properties=['C15_DisconnectAllClosesAll'],
+             on_violation=stuck_join_handler, min_states=20),
+        dict(name='application disconnect() with only websocket clients returns and leaves no '
+                  'session, asyncio',
+             consts=core.consts(Sid='{1, 2}', Alpha=A('openws', 'apiall', 'send', 'wsio', 'sess'),
+                                FrameProfile='"steady"', ImplJoinLatch='TRUE',
+                                ImplWsReadTimeout='TRUE', MaxMsg=1, MaxReq=4, MaxQ=4, MaxEv=3),
+             invariants=INVS, properties=['C15_DisconnectAllClosesAll', 'C15_DisconnectAllEmpties'],
+             min_states=100),
     ]
     core.run_tlc_jobs(ck, jobs)
 
@@ -68,7 +104,7 @@ def run(tier):
     n = 300 if th else 100
     w = {'anyreq': 10, 'post': 10, 'poll': 6, 'disconnect': 0, 'send': 4, 'wsframe': 6,
          'upgrade': 2, 'openws': 1, 'wsdrop': 2, 'tick': 6, 'openrej': 1}
-    w_api = dict(w, disconnect=3)
+    w_api = dict(w, disconnect=3, disconnectall=1, transport=2)
     plans = []
     for impl in ('sync', 'async'):
         for mon in (False, True):
